@@ -1,10 +1,55 @@
 import Vegeta.Go.Proto
-/-! Driver operations of property C11 (ops are named `c11.<name>`). -/
-namespace Vegeta.Driver.C11
-open Vegeta.Go Vegeta.Go.Proto
+import Vegeta.Model.Quantile
+import Vegeta.Extracted.Facts
+/-! Driver operations of property C11 (ops are named `c11.<name>`).
+Floats travel as the decimal rendering of their IEEE-754 bit pattern; the model runs over
+`Vegeta.Go.F64` (SoftF64).
 
-def handle (_op : String) (args : List String) : Option String :=
-  match _op with
+* `c11.quantile <digest> k q1 … qk`  →  `ok bits:dur …` — `TDigest.Quantile(q)` and
+  `time.Duration(…)` of it, per q (`panic` in place of an entry whose evaluation panics)
+* `c11.cum <digest>` → `ok n bits…` — `updateCumulative`
+* `c11.close <digest>` → `ok p50 p90 p95 p99`
+* `c11.hdr <digest> requests` → `ok n value,q,count,oneBy …` rows over the *extracted* ladder
+
+`<digest>` = `n mean1 weight1 … meann weightn processedWeight min max`.
+-/
+namespace Vegeta.Driver.C11
+open Vegeta.Go Vegeta.Go.Proto Vegeta.Model.Quantile
+
+def f64 : P F64 := do let b ← nat; pure ⟨b⟩
+
+def centroid : P (Centroid F64) := do
+  let m ← f64; let w ← f64; pure ⟨m, w⟩
+
+def digest : P (Digest F64) := do
+  let cs ← listOf centroid
+  let w ← f64; let mn ← f64; let mx ← f64
+  pure ⟨cs, w, mn, mx⟩
+
+def handle (op : String) (args : List String) : Option String :=
+  match op with
+  | "c11.quantile" => do
+    let ((d, qs), _) ← (do let d ← digest; let qs ← listOf f64; pure (d, qs)).run args
+    let cum := cumulative d.processed
+    let out := qs.foldl (fun s q =>
+      match quantileCum cum d q with
+      | .ok x => s ++ " " ++ toString x.bits ++ ":" ++ toString (F64.toInt64 x)
+      | _ => s ++ " panic") "ok"
+    pure out
+  | "c11.cum" => do
+    let (d, _) ← digest.run args
+    pure ("ok " ++ showNats ((cumulative d.processed).map (·.bits)))
+  | "c11.close" => do
+    let (d, _) ← digest.run args
+    match close F64.toInt64 d with
+    | .ok p => pure ("ok " ++ toString p.p50 ++ " " ++ toString p.p90 ++ " " ++ toString p.p95 ++ " " ++ toString p.p99)
+    | _ => pure "panic"
+  | "c11.hdr" => do
+    let ((d, n), _) ← (do let d ← digest; let n ← nat; pure (d, n)).run args
+    match hdrRows F64.toInt64 d n Vegeta.Extracted.c11_ladder with
+    | .ok rs => pure (rs.foldl (fun s r => s ++ " " ++ toString r.value.bits ++ "," ++ toString r.q.bits ++ ","
+        ++ toString r.count ++ "," ++ toString r.oneBy.bits) ("ok " ++ toString rs.length))
+    | _ => pure "panic"
   | _ => none
 
 end Vegeta.Driver.C11
